@@ -73,7 +73,8 @@ def run(pid, tier, seed):
     # only the first failing route of a sequence is attributed (later probes are skipped by the trace spec)
     diff = sorted((step or {}).get("diff", []))
     nondefault = sorted(k for k, v in cfg["opts"].items())
-    ident = {"class": cfg["cls"], "route": where, "clause": clause, "fields": diff}
+    ident = {"class": cfg["cls"], "route": where, "clause": clause, "fields": diff,
+             "array_alpha": str(cfg["opts"].get("alpha", "")).startswith("v:")}
     key = json.dumps([ident, m["cfg"]])
     if key in seen:
       continue
